@@ -128,15 +128,45 @@ def histories(tier):
                 perms = ([o for o in objs if o not in keep] + list(pp) for pp in itertools.permutations(keep))
             for pm in perms:
                 pm = list(pm)
+                # with allocation noise, every module is evaluated with a collection at each of its safepoints
+                gc_full = [dict(o, gc=True) if o["op"].startswith("module") and "src" in o else o for o in full]
                 if not q:
                     yield {"build": full, "drops": pm, "noise": []}
-                yield {"build": full, "drops": pm, "noise": list(range(len(pm)))}
+                    yield {"build": full, "drops": pm, "noise": list(range(len(pm)))}
+                yield {"build": gc_full, "drops": pm, "noise": list(range(len(pm)))}
+
+
+def hold_histories(tier):
+    """The last module of a build graph keeps a value it got through load() as a plain Value of its (still living) value
+    heap while the module itself is dropped - unfrozen, or frozen and the frozen module dropped - and its exporters are dropped."""
+    q = tier == "quick"
+    n = 3
+    for edges, pats, build, pre_handles in scenarios(n, 2):
+        (a, b), p = edges[-1], pats[-1]
+        if b != n - 1 or any(pp in ("import", "inject") for (x, y), pp in zip(edges, pats) if y == b):
+            continue
+        last = [o for o in build if o["id"] == f"m{b}"][0]
+        if last["op"] != "module" or not last["loads"]:
+            continue
+        dn = derived_name(b, a, p)
+        rest = [o for o in build if o["id"] != f"m{b}"]
+        others = [o["id"] for o in rest if o["id"] not in last["loads"]]
+        sym = f"F{a}" if p == "onlyfn" else f"X{a}"
+        src = last["src"] + f"HOLD = {sym}\n"
+        for freeze in (False, True):
+            # only the LOADED value itself is held: the module's own values are forwarded by a freeze, and its compile-time
+            # constants live on the module's private frozen heap, which is documented to die with the module
+            for name in ("HOLD",):
+                for gc in ((False, True) if not q else (True,)):
+                    hold = {"op": "module_hold", "id": f"m{b}", "src": src, "loads": last["loads"], "name": name, "freeze": freeze, "gc": gc}
+                    for pm in itertools.permutations(others):
+                        yield {"build": rest + [hold], "drops": list(pm), "noise": list(range(len(pm)))}
 
 
 def run(tier):
     res = vlib.Result(PID, tier, "model_checking")
     specs = []
-    for h in histories(tier):
+    for h in itertools.chain(histories(tier), hold_histories(tier)):
         h["id"] = len(specs)
         specs.append(h)
     vlib.log(f"[C13] {len(specs)} histories")
